@@ -58,7 +58,7 @@ def run_pipeline(chk, want, quick_cases=1500, full_cases=60000, nconc=(3, 8),
     # (own generator: the replay of a case must rebuild exactly these concretisations)
     nbase = nconc[1] if thorough else nconc[0]
     concs = common.concs(nbase, random.Random(chk.seed * 7919 + 13))
-    concs = concs + common.unit_twins(concs)
+    concs = concs + common.unit_twins(concs) + common.leap_concs(concs)
     skipped = 0
     ops = {}
     for i, case in enumerate(cases):
@@ -106,7 +106,7 @@ def replay(doc):
         print(ev["_desc"], "->", [f for _, f in rej] or "accepted")
         return 1 if rej else 0
     concs = common.concs(c["nconc"], random.Random(c["seed"] * 7919 + 13))
-    concs = concs + common.unit_twins(concs)
+    concs = concs + common.unit_twins(concs) + common.leap_concs(concs)
     common._ASSIGN_COUNT = c.get("assign_count", 0)
     res, skip = pr.replay(c["case"], concs[c["conc_index"]], want=(doc["property"],))
     res = [r for r in res if r[0] == doc["property"]]
